@@ -5,7 +5,7 @@
 (* that they can be evaluated on the specification's state and on what the  *)
 (* library logged.                                                          *)
 (***************************************************************************)
-EXTENDS AyMerge, AyUniverse, SequencesExt
+EXTENDS AyMerge, AyUniverse, AyFiles, SequencesExt
 
 \* references: !xref nodes and !eval nodes whose code is one bare name (they carry ref = <<that top-level key>>):
 \* both evaluate to the very object their target evaluates to
@@ -61,6 +61,15 @@ C09_Dangling(t, status) ==
                             /\ (IsFn(At(t, p)) => At(t, p).ref = <<>>)) =>
         ((status = "EvalError") <=> BadRefs(t))
 C09_Holds(t, status, ids) == status \in {"done", "EvalError"} => (C09_Alias(t, status, ids) /\ C09_Dangling(t, status))
+
+\* what a config with !rec nodes denotes: every !rec node whose names are plain strings of existing files stands for
+\* the fold of these files (each read as a source whose safe flag is the safety of its name node), recursively
+RECURSIVE ExpandRec(_)
+ExpandRec(n) ==
+    IF n.k = "rec" /\ \A i \in 1..Len(n.ch) : (n.ch[i][2].k = "scalar" /\ n.ch[i][2].v[1] = "s" /\ HasFile(n.ch[i][2].v[2]))
+    THEN LET sub == FoldDocs([i \in 1..Len(n.ch) |-> Parse(FileDoc(n.ch[i][2].v[2]), EffSafe(n.ch[i][2]))])
+         IN IF IsErr(sub) THEN n ELSE ExpandRec(sub)
+    ELSE [n EXCEPT !.ch = [i \in 1..Len(n.ch) |-> <<n.ch[i][1], ExpandRec(n.ch[i][2])>>]]
 
 \* ---- C10 -------------------------------------------------------------------
 \* calls: sequence of [p, fn, args]
